@@ -189,6 +189,7 @@ bool FileHeader::checkMn()
     fseek(fp, FILE_MN_MARK, SEEK_SET);
     u64_t mn = 0;
     int sum = fread(&mn, 1, 8, fp);
+    WV_GHOST(wv_magic_ok = (sum == 8 && mn == FileHeader__Magic_Num);)
     if (sum != 8)
         return false;
     return (mn == Magic_Num);
